@@ -71,7 +71,8 @@ theorem psiSeqLine_nd (cfg : Cfg) (hg : cfg.digital = false → cfg.inmap.emits 
                 { names := by show ∀ nm ∈ (setBlock st c).names, _; rw [hsb.1]; exact hi.names
                   rows := by show _ → ∀ r, some r ∈ (setBlock st c).rows → _; rw [hsb.2]; exact hi.rows
                   bsl := fun _ => hsl }
-              obtain ⟨n1, n2, n3, n4, _⟩ := blkName_nd cfg false _ st1 name hnm (name_nospace_gen p _ _ name hc1 hc2 hname) hi1
+              obtain ⟨n1, n2, n3, n4, _⟩ := blkName_nd cfg false _ st1 name hnm (name_nospace_gen p _ _ name hc1 hc2 hname)
+                (name_ne_gen p _ _ name hc2 hname) hi1
               obtain ⟨a1, a2, a3, a4⟩ := blkAppend_nd cfg hg st1 st' seq h (fun hd r hr => hi1.rows hd r (n2 r hr))
               have hphase : st'.phase = .inblock := by rw [a3, n3]
               exact { blk := { names := by rw [a1]; exact n1, rows := a2, bsl := fun _ => by rw [a4, n4]; exact hsl }
@@ -161,7 +162,7 @@ theorem psiTextGraphB_true : psiTextGraphB = true := by decide +kernel
 /-- **what the PSI-BLAST reader returns in text mode is in the domain of the PSI-BLAST round trip**, given: no empty name,
     no lower-case residue, `rf` marks every column that holds a residue -/
 theorem psiblastRead_domain_text (lines : List Bytes) (m : Msa) (rest : List Bytes)
-    (h : psiblastRead (psiblastCfg none) lines = (.ok m, rest)) (hne : cluNamesNeB m = true) (hup : psiRowsUpperB m = true)
+    (h : psiblastRead (psiblastCfg none) lines = (.ok m, rest)) (hup : psiRowsUpperB m = true)
     (hcol : psiColsOkB m = true) : PsiblastTextWritable m := by
   have hg := psiblastRead_good (psiblastCfg none) ⟨by decide +kernel, by decide +kernel⟩ lines
   have hn := psiblastRead_nd (psiblastCfg none) (fun _ => psiTextGraphB_true) lines
@@ -173,7 +174,7 @@ theorem psiblastRead_domain_text (lines : List Bytes) (m : Msa) (rest : List Byt
   simp only [Bool.false_eq_true, if_false] at hrows
   exact
     { dig := hdig', n1 := h1, alen1 := halen
-      name_ok := cluName_ok m hnm hne
+      name_ok := cluName_ok m hnm
       row_ok := fun i hi => by
         have hmem := rd_getD_mem m.aseq i (by rw [hrows.1]; exact hi)
         exact ⟨(hrows.2 _ hmem).1, fun t ht => (List.all_eq_true.mp ((List.all_eq_true.mp hup) _ hmem)) t ht⟩
@@ -186,7 +187,7 @@ theorem psiblastRead_domain_text (lines : List Bytes) (m : Msa) (rest : List Byt
 
 /-- … digital mode -/
 theorem psiblastRead_domain_digital (a : Abc) (hv : (psiblastCfg (some a)).valid) (lines : List Bytes) (m : Msa) (rest : List Bytes)
-    (h : psiblastRead (psiblastCfg (some a)) lines = (.ok m, rest)) (hne : cluNamesNeB m = true) (hup : psiRowsDigB a m = true)
+    (h : psiblastRead (psiblastCfg (some a)) lines = (.ok m, rest)) (hup : psiRowsDigB a m = true)
     (hcol : psiColsOkDigB a m = true) : PsiblastDigitalWritable a m := by
   have hg := psiblastRead_good (psiblastCfg (some a)) hv lines
   have hn := psiblastRead_nd (psiblastCfg (some a)) (fun hd => by simp [psiblastCfg, Cfg.digital] at hd) lines
@@ -199,7 +200,7 @@ theorem psiblastRead_domain_digital (a : Abc) (hv : (psiblastCfg (some a)).valid
   simp only [if_true] at hrows
   exact
     { dig := hdig', n1 := h1, alen1 := halen
-      name_ok := cluName_ok m hnm hne
+      name_ok := cluName_ok m hnm
       row_ok := fun i hi => by
         have hmem := rd_getD_mem m.ax i (by rw [hrows.1]; exact hi)
         refine ⟨by rw [← hkp']; exact hrows.2 _ hmem, fun x hx => ?_⟩
